@@ -402,14 +402,17 @@ class ExecutableWithState(Generic[CallableType, ResultType]):
 
     def complete(self, result: ResultType) -> None:
         """Transition to COMPLETED state."""
-        self._status = BranchStatus.COMPLETED
+        # Store the result before publishing the status: other threads read the status
+        # first, without a lock, and then expect the result to be available
         self._result = result
         self._is_result_set = True
+        self._status = BranchStatus.COMPLETED
 
     def fail(self, error: Exception) -> None:
         """Transition to FAILED state."""
-        self._status = BranchStatus.FAILED
+        # Store the error before publishing the status (see complete())
         self._error = error
+        self._status = BranchStatus.FAILED
 
     def reset_to_pending(self) -> None:
         """Reset to PENDING state for resubmission."""
